@@ -16,6 +16,15 @@ class SymUni(Universe): pass
 class SymFalsyVert(Vertex):
     def __bool__(self):
         return False
+class EqVert(Vertex):
+    """a user vertex class with value equality: two distinct vertices may compare (and hash) equal"""
+    def __init__(self, key=None, **kw):
+        super().__init__(**kw)
+        self.key = key
+    def __eq__(self, other):
+        return isinstance(other, EqVert) and self.key == other.key
+    def __hash__(self):
+        return hash(self.key)
 class FalsyCallable:
     """A callable user object whose truth value is False (e.g. an empty allow-list with __len__)."""
     def __init__(self, answer):
